@@ -11,7 +11,8 @@ Whoever removes an entry without running it must pop what it owes.
   UNWIND-BREAK / UNWIND-CONTINUE  (MIR, abstract simulation) for every (V, S): when eval_break / eval_continue discards the
                entry it pops exactly owes(V, S) blocks; when it stops at a loop entry and re-schedules it in state S' it pops
                owes(V, S) - owes(V, S').
-  RETURN-CLEARS  `return` clears exprs_to_eval of the frame and the frame is then dropped whole by eval::eval.
+  RETURN-CLEARS  `return` clears exprs_to_eval of the frame and truncates its binding blocks to the base block; a function's
+               frame is then dropped whole by eval::eval, the toplevel frame survives without the blocks it was in.
 """
 from .. import mir as M
 from .. import dflow as D
@@ -62,6 +63,13 @@ def pushed_state(f, t):
             return "PartiallyEvaluated(?)"
         return v
     if r[0] == "place":
+        # a local assigned on several paths, at least once from a constructed state, is not "the popped state"
+        l = r[1]["l"]
+        defs = f.defs.get(l, []) if not r[1]["p"] else []
+        if len(defs) > 1:
+            for (b_, si, st) in defs:
+                if si != "term" and st.get("s") == "assign" and st["rv"]["k"] == "agg" and st["rv"].get("adt", "").endswith("ExpressionState"):
+                    return "?"
         return "same"
     return "?"
 
@@ -189,6 +197,119 @@ def run(ctx, res):
     for (v, s), n in owes.items():
         if n and not feasible(v, s):
             res.note("entry (%s, %s) owes a block but is never scheduled" % (v, st_label(s)))
+    # ---- PUSH-PAIRING (conservation per step): when the arm for (V, S) returns Ok,
+    #        blocks pushed - blocks popped  ==  sum of owes(V, S') over the entries it scheduled  -  owes(V, S)
+    # i.e. X = pushes - pops - sum owes(scheduled) must be exactly -owes(V, S) on every Ok path. Helpers (eval_if,
+    # eval_while_body, eval_for_in, eval_match_cases, eval_block ..) are summarised by the set of X they can add on their Ok
+    # paths, computed the same way for the variant of the arm that calls them.
+    STATE_OF = {st_label(s_): s_ for s_ in STATES}
+
+    def is_err_block(g, b):
+        blk = g.blocks[b]
+        for st_ in blk["stmts"]:
+            if st_.get("s") == "assign" and st_["place"]["l"] == 0 and not st_["place"]["p"] and st_["rv"]["k"] == "agg" and st_["rv"].get("variant") == "Err":
+                return True
+        t_ = blk["term"]
+        if t_["t"] == "call" and (M.callee_name(t_) or "").endswith("from_residual") and t_.get("dest") and t_["dest"]["l"] == 0:
+            return True
+        return False
+    summ_cache = {}
+
+    def delta_of_block(g, b, v, depth):
+        """set of X increments contributed by block b of function g (for variant v)."""
+        t_ = g.blocks[b]["term"]
+        if t_["t"] != "call":
+            return {0}
+        n_ = M.callee_name(t_) or ""
+        if n_.endswith("Bindings::push_block"):
+            return {1}
+        if n_.endswith("Bindings::pop_block"):
+            return {-1}
+        ps = pushed_state(g, t_)
+        if ps is not None and ps not in ("NotEvaluated",):
+            if ps in STATE_OF:
+                return {-owes.get((v, STATE_OF[ps]), 0)}
+            return {0}      # 'same'/'?': a re-push of an entry in its own state is handled by the unwinding rules
+        if n_ in P.funcs and n_.startswith(("eval::", "env::")) and not n_.endswith(("Env::push_expr_to_eval",)) and depth < 4 and n_ != g.path:
+            return helper_summary(n_, v, depth + 1)
+        return {0}
+
+    def helper_summary(path, v, depth=0):
+        key_ = (path, v)
+        if key_ in summ_cache:
+            return summ_cache[key_]
+        summ_cache[key_] = {0}
+        g = P.funcs[path]
+        # only functions that can touch binding blocks or schedule entries matter: cheap pre-filter on reachability
+        if path not in touchers:
+            return {0}
+
+        def tr(b, val):
+            fs, err = val
+            ds = delta_of_block(g, b, v, depth)
+            nf = frozenset(max(-3, min(3, x + d)) for x in fs for d in ds)
+            return (nf, err or is_err_block(g, b))
+        out_ = sim.simulate(g, 0, {}, tr, init={(frozenset({0}), False)})
+        vals = set()
+        for (kind, bb), vs in out_.items():
+            if kind == "return":
+                for (fs, err) in vs:
+                    if not err:
+                        vals |= set(fs)
+        summ_cache[key_] = vals or {0}
+        return summ_cache[key_]
+    # functions from which a block push/pop or a non-initial scheduling is reachable
+    E_ = P.edges()
+    direct = set()
+    for p_, g in P.funcs.items():
+        if not p_.startswith(("eval::", "env::")):
+            continue
+        for bi, t_ in g.calls():
+            n_ = M.callee_name(t_) or ""
+            ps = pushed_state(g, t_)
+            if n_.endswith(("Bindings::push_block", "Bindings::pop_block")) or (ps is not None and ps != "NotEvaluated"):
+                direct.add(p_)
+    touchers = set(direct)
+    ch = True
+    while ch:
+        ch = False
+        for p_, es in E_.items():
+            if p_ in touchers or not p_.startswith(("eval::", "env::")):
+                continue
+            if any(k != "live" and tgt in touchers for k, tgt, bi in es):
+                touchers.add(p_)
+                ch = True
+    n_steps = 0
+    for v in variants:
+        for s_ in STATES:
+            if not feasible(v, s_) or v in ("Break", "Continue", "Return"):
+                continue    # unwinding steps remove other entries: UNWIND-BREAK / UNWIND-CONTINUE / RETURN-CLEARS decide them
+
+            def tr(b, val, v=v):
+                fs, err = val
+                ds = delta_of_block(ev, b, v, 0)
+                nf = frozenset(max(-3, min(3, x + d)) for x in fs for d in ds)
+                return (nf, err or is_err_block(ev, b))
+            out_ = sim.simulate(ev, 0, assignment(v, s_), tr, init={(frozenset({0}), False)})
+            got = set()
+            for (kind, bb), vs in out_.items():
+                if kind == "return":
+                    for (fs, err) in vs:
+                        if not err:
+                            got |= set(fs)
+            if not got:
+                continue
+            n_steps += 1
+            want = -owes.get((v, s_), 0)
+            key = "eval::eval_expr # step (%s, %s)" % (v, st_label(s_))
+            if got == {want}:
+                res.ok("PUSH-PAIRING", key + ": blocks pushed - popped = owed by what it schedules - owed by the entry (%+d)" % want)
+            else:
+                res.bad("PUSH-PAIRING", key + " # imbalance %s" % sorted(x - want for x in got),
+                        "a step of (%s, %s) can leave %s more binding block(s) pushed than the entries it schedules will pop (paths differ: %s): a surplus block "
+                        "stays on the frame, so the enclosing block's pop removes it instead of its own block and that block's variables stay visible; a "
+                        "deficit pops an enclosing block early" % (v, st_label(s_), sorted(x - want for x in got), sorted(got)), ev.loc())
+    res.floor("PUSH-PAIRING", "feasible (variant, state) steps simulated", n_steps, 25)
     # ---- UNWIND
     for fname, rule in (("eval::eval_break", "UNWIND-BREAK"), ("eval::eval_continue", "UNWIND-CONTINUE")):
         g = P.require_fn(fname)
@@ -301,6 +422,17 @@ def run(ctx, res):
         res.ok("RETURN-CLEARS", "eval_expr: Expression_::Return clears exprs_to_eval of the current frame")
     else:
         res.bad("RETURN-CLEARS", "eval::eval_expr # Return", "the Return arm no longer clears the frame's pending expressions", ev.loc())
+    # the frame that returns is the toplevel frame when `return` is written outside any function (a session request, a
+    # script): that frame is never dropped, so the Return arm itself must drop the binding blocks of the blocks it leaves
+    truncs = [bi for bi, t in D.calls_named(ev, "Vec::<T, A>::truncate", "block_bindings") if D.const_int(ev, t["args"][1]) == 1]
+    ok_t = [bi for bi in truncs if "Return" in D.arm_label(ev, bi, enums={"Expression_"})]
+    clr = [bi for bi in clears if "Return" in D.arm_label(ev, bi, enums={"Expression_"})]
+    if ok_t and clr and all(any(ev.dominates(c_, t_) or ev.dominates(t_, c_) for t_ in ok_t) for c_ in clr):
+        res.ok("RETURN-CLEARS", "eval_expr: Expression_::Return also truncates the frame's binding blocks to the base block (the toplevel frame survives a return)")
+    else:
+        res.bad("RETURN-CLEARS", "eval::eval_expr # Return # blocks-kept",
+                "the Return arm clears the pending expressions but keeps the binding blocks of the blocks it leaves: in the toplevel frame, which is "
+                "not dropped, their variables stay visible after `if c { let q = 1 return }`", ev.loc())
     e = P.require_fn("eval::eval")
     fpops = [bi for bi, t in D.calls_named(e, "Vec::<T, A>::pop", "0")]
     if fpops:
